@@ -102,9 +102,9 @@ def audit(pid):
     if r.returncode != 0:
         raise Broken('audit', f'#print axioms failed for {pid}', r.stdout[-2000:])
     axioms = {}
-    for m in re.finditer(r"'([^']+)' depends on axioms: \[([^\]]*)\]", r.stdout, re.S):
+    for m in re.finditer(r"^'(\S+)' depends on axioms: \[([^\]]*)\]", r.stdout, re.S | re.M):
         axioms[m.group(1)] = [a.strip() for a in m.group(2).replace('\n', ' ').split(',') if a.strip()]
-    for m in re.finditer(r"'([^']+)' does not depend on any axioms", r.stdout):
+    for m in re.finditer(r"^'(\S+)' does not depend on any axioms", r.stdout, re.M):
         axioms[m.group(1)] = []
     for t in thms:
         if t not in axioms:
@@ -172,7 +172,7 @@ def canon(line):
     return ('bad', line)
 
 
-def run_lines(cmd, lines, timeout=3600, chunk=None):
+def run_lines(cmd, lines, timeout=900, chunk=None):
     """feed lines to a line-protocol process; returns list of output lines (same length)."""
     data = '\n'.join(lines) + '\n'
     r = subprocess.run(cmd, input=data, stdout=subprocess.PIPE, stderr=subprocess.PIPE, text=True, timeout=timeout, env=ENV)
